@@ -16,8 +16,9 @@ def run(tier, seed):
             continue
         cases.append(Case('agree_v%d_s%d_%d_o%d_a%d_%d' % (vk, s1, s2, o, a1, a2), 'crypto', 'zzDKG_qual_agreement', [vk & M, s1 & M, s2 & M, o, a1, a2]))
     # unsolicited (early) complaint answers naming participant 1, broadcast in round 1 before the shares
-    for vk, s1, s2, a1, ek in itertools.product((0, 6), (-1, 0, 1, 2), (0,), (0, 1, 2), (1, 2, 3)):
-        cases.append(Case('early_v%d_s%d_%d_a%d_e%d' % (vk, s1, s2, a1, ek), 'crypto', 'zzDKG_qual_agreement_early', [vk & M, s1 & M, s2 & M, 0, a1, 0, ek]))
+    # (order bit k set: participant k+1 receives its share before the vector)
+    for vk, s1, s2, a1, ek, o in itertools.product((0, 6), (-1, 0, 1, 2), (0,), (0, 1, 2), (1, 2, 3), (0, 1, 3)):
+        cases.append(Case('early_v%d_s%d_%d_a%d_e%d_o%d' % (vk, s1, s2, a1, ek, o), 'crypto', 'zzDKG_qual_agreement_early', [vk & M, s1 & M, s2 & M, o, a1, 0, ek]))
     return run_check('C07', cases, tier, seed, setup=dkgcommon.SETUP,
         functions=['feldmanVSSQualState handlers, timeouts and End, run as a product of two honest participants of one dealer instance'],
         bounds={'configuration': 'n=4, t=1, Byzantine dealer 0, honest participants 1 and 2',
